@@ -113,6 +113,7 @@ type stateless struct {
 	docT     *doctransformer.Transformer
 	ver      *verprovider.ClientVersionProvider
 	inputs   [][]byte
+	refused  [][]byte // well-formed requests refused by a list rule (algorithm / curve not allowed)
 	creates  [][]byte
 	suffixes []string
 }
@@ -258,6 +259,10 @@ func All() []Scenario {
 	out = append(out, Scenario{Name: "stateless-components", Kind: "stateless",
 		Setup: func() any {
 			p := ops.Proto()
+			// lists as a deployment writes them (not sorted), without ES384 / ES512 and without P-521, so that the refused requests
+			// below take the error paths of the list rules while other threads read the same lists
+			p.SignatureAlgorithms = []string{"EdDSA", "ES256", "ES256K"}
+			p.KeyAlgorithms = []string{"secp256k1", "Ed25519", "P-256", "P-384"}
 			st := &stateless{parser: operationparser.New(p), composer: doccomposer.New(), didT: didtransformer.New(didtransformer.WithBase(true), didtransformer.WithMethodContext([]string{"https://method.example/ctx/v1", "https://method.example/ctx/v2"})),
 				didT2: didtransformer.New(didtransformer.WithMethodContext([]string{"https://method.example/ctx/v1", "https://method.example/ctx/v2", "https://method.example/ctx/v3", "https://method.example/ctx/v4"})), docT: doctransformer.New()}
 			st.applier = operationapplier.New(p, st.parser, st.composer)
@@ -282,6 +287,9 @@ func All() []Scenario {
 				st.suffixes = append(st.suffixes, ops.Suffix(c, 18))
 				u := ops.ValidUpdate(ops.Suffix(c, 18), upd, next, []any{ops.ParseJSON(fmt.Sprintf(`{"action":"add-also-known-as","uris":["https://t%d.example/"]}`, i))}, 18, ops.Window{})
 				st.inputs = append(st.inputs, ops.Bytes(u))
+				// requests that the parser refuses on the error paths of its list rules: a signature algorithm and a curve that are not allowed
+				bad := keys.New([]string{"P-384", "P-521", "P-384"}[i], 330+i)
+				st.refused = append(st.refused, ops.Bytes(ops.ValidUpdate(ops.Suffix(c, 18), bad, next, []any{ops.ParseJSON(`{"action":"add-also-known-as","uris":["https://r.example/"]}`)}, 18, ops.Window{})))
 			}
 			return st
 		},
@@ -293,6 +301,10 @@ func All() []Scenario {
 					st := s.(*stateless)
 					r.Call(t, "parse-create", func() string {
 						op, err := st.parser.Parse("did:sidetree", st.creates[i])
+						return hashJSON([]any{op, fmt.Sprint(err)})
+					})
+					r.Call(t, "parse-refused", func() string {
+						op, err := st.parser.Parse("did:sidetree", st.refused[i])
 						return hashJSON([]any{op, fmt.Sprint(err)})
 					})
 					r.Call(t, "get-commitment", func() string {
